@@ -357,6 +357,9 @@ func (e *Engine) runProperty(prop, tier string, budget int) *checkOutcome {
 
 func writeReplay(prop, obl string, content map[string]interface{}) string {
 	dir := filepath.Join(verifDir, "replays", prop)
+	if d := os.Getenv("GOVC_EVIDENCE_DIR"); d != "" {
+		dir = filepath.Join(d, "replays", prop)
+	}
 	os.MkdirAll(dir, 0o755)
 	path := filepath.Join(dir, sanitize(obl)+".json")
 	b, _ := json.MarshalIndent(content, "", " ")
@@ -476,9 +479,13 @@ func writeEvidence(prop, tier string, seed int, e *Engine, out *checkOutcome, vi
 		"wall_s":      round3(wall),
 		"violations":  len(viol),
 	}
-	os.MkdirAll(filepath.Join(verifDir, "evidence"), 0o755)
+	evDir := filepath.Join(verifDir, "evidence")
+	if d := os.Getenv("GOVC_EVIDENCE_DIR"); d != "" {
+		evDir = d // scratch runs on seeded changes must not overwrite the evidence of the unchanged tree
+	}
+	os.MkdirAll(evDir, 0o755)
 	b, _ := json.MarshalIndent(ev, "", " ")
-	os.WriteFile(filepath.Join(verifDir, "evidence", prop+".json"), b, 0o644)
+	os.WriteFile(filepath.Join(evDir, prop+".json"), b, 0o644)
 }
 
 func round3(f float64) float64 { return float64(int(f*1000+0.5)) / 1000 }
